@@ -2216,7 +2216,7 @@ def coupling_cases(draw):
 def events_table():
     from pyunicorn.eventseries import EventSeries
     ex = []
-    for sym in ("directed", "symmetric", "mean"):
+    for sym in ("directed", "symmetric", "antisym", "mean", "max", "min"):
         ex.append(Q("event_series_analysis(ES,%s)" % sym,
                     "event_series_analysis",
                     _meth("event_series_analysis", "ES", sym)))
